@@ -974,7 +974,9 @@ func TestVerifC03(t *testing.T) {
 		"(c) random schedules of 6-30 ops over append(1-4 msgs, pad 0-39) / sparse appendset / sethw (newest, +1, random step, no-op) / roll / reader (0, hw, hw+1, newest, beyond, random) / settle / read-only toggles, "+
 		"MaxSegmentBytes in {1,60,150,400,1<<20}, 20% with the HW set beyond the log end at quiescence; each compared at every settle with the Lean model run coarsely AND with a random fine-grained model schedule (reader micro-steps between the ops), and judged by the property's oracle "+
 		"(offset <= HighWatermark() after the read, increasing, no retained offset skipped, content, completeness at HW = newest); "+
-		"(d) free-running stress (writer with rolls and read-only periods, HW setter never beyond newest, readers at random offsets) judged by the oracle only. "+
+		"(d) free-running stress (writer with rolls and read-only periods, HW setter never beyond newest, readers at random offsets) judged by the oracle only; "+
+		"(e) STEPPED schedules, single-threaded: the reader's steps of the model (advance = real ReadMessage, checkHW = HighWatermark(), registerWait = the real commitLog.waitForHW, resync, cancel) interleaved one by one with append / sethw / read-only / roll on the real log — every word of length <= 5 (quick) / 6 (thorough) over {reader step, append 1, sethw +1, read-only toggle} after four prefixes (positioned reader, reader parked at creation, both on one-record segments, reader that has sampled the HW and is about to register) and random longer ones with up to 3 readers — compared with the model after EVERY step and judged by: no reader is parked (channel empty) while a retained message at/after its position is <= HighWatermark() (committed-reader-lost-wakeup), no read-only end with such a message pending, completeness after running the readers to quiescence; "+
+		"(f) wake-up race: caught-up reader goroutines against single-message HW advances with nothing else happening until delivery (per-message deadline 20 s). "+
 		"non-trivial = at least one reader delivered a message and the HW moved at least twice; distinct by schedule text")
 	defer res.Write(t)
 
@@ -1031,6 +1033,20 @@ func TestVerifC03(t *testing.T) {
 			vC03Stress(t, res, seed, dd, nr, ro)
 			return
 		}
+		if strings.HasPrefix(rc[0], "steps ") {
+			vC03StepsCheck(t, model, res, rc, "replay")
+			return
+		}
+		if strings.HasPrefix(rc[0], "wakeup-race ") {
+			var seed uint64
+			var msgs, nr int
+			var d string
+			fmt.Sscanf(rc[0], "wakeup-race seed=%d msgs=%d readers=%d deadline=%s", &seed, &msgs, &nr, &d)
+			dd, _ := time.ParseDuration(d)
+			vC03WakeupRace(t, res, seed, msgs, nr, dd)
+			res.Count(rc[0], true)
+			return
+		}
 		check(rc, 0, "replay")
 		return
 	}
@@ -1038,6 +1054,9 @@ func TestVerifC03(t *testing.T) {
 	for _, c := range vCorpus(t, "C03") {
 		if len(c) > 0 && strings.HasPrefix(c[0], "begin ") { // follower-*.ops belong to TestVerifC03Follower
 			check(c, 0, "corpus")
+		}
+		if len(c) > 0 && strings.HasPrefix(c[0], "steps ") { // stepped schedules (zz_verif_c03_steps_test.go)
+			vC03StepsCheck(t, model, res, c, "corpus")
 		}
 	}
 	vC03ProbeNegativeStart(t, res)
@@ -1113,6 +1132,9 @@ func TestVerifC03(t *testing.T) {
 		}
 		check(vC03Gen(rnd, follower), rnd.U64()|1, src)
 	}
+
+	// (3) stepped schedules on the real log + (4) wake-up race (zz_verif_c03_steps_test.go)
+	vC03StepsAll(t, model, res, rnd)
 
 	// (d) free-running stress
 	total := 5 * time.Second
